@@ -155,16 +155,8 @@ func (r restClientProtocol) prepareUnmarshalledRequest(op *operation, src []byte
 	if err := r.prepareUnmarshalledRequestFromBody(op, src, target); err != nil {
 		return err
 	}
-	// Now pull in the fields from the URI path:
+	// Now pull in the fields from the query string:
 	msg := target.ProtoReflect()
-	for i := len(op.restVars) - 1; i >= 0; i-- {
-		variable := op.restVars[i]
-		if err := setParameter(msg, variable.fields, variable.value); err != nil {
-			return err
-		}
-	}
-
-	// And finally from the query string:
 	discardUnknownQueryParams := op.methodConf.restUnmarshalOptions.DiscardUnknownQueryParams
 	for fieldPath, values := range op.queryValues() {
 		fields, err := resolvePathToFieldDescriptors(
@@ -180,6 +172,15 @@ func (r restClientProtocol) prepareUnmarshalledRequest(op *operation, src []byte
 			if err := setParameter(msg, fields, value); err != nil {
 				return err
 			}
+		}
+	}
+
+	// And finally from the URI path. These come last so that a query parameter
+	// can never override a value that the path template has bound.
+	for i := len(op.restVars) - 1; i >= 0; i-- {
+		variable := op.restVars[i]
+		if err := setParameter(msg, variable.fields, variable.value); err != nil {
+			return err
 		}
 	}
 	return nil
